@@ -108,7 +108,7 @@ def lateRefd : Th K → Option (List K)
   | _ => none
 
 def occF (k : K) (C : List Nat) (arts : List (Nat × Art K)) : Nat :=
-  (arts.map (fun a => if C.contains a.1 then 0 else a.2.chunks.count k)).sum
+  (arts.map (fun a => if a.1 ∈ C then 0 else a.2.chunks.count k)).sum
 
 def owed (k : K) (ths : List (Th K)) : Nat := (ths.map (owes k)).sum
 
@@ -119,7 +119,7 @@ def Prot (s0 : State K) (T : List Nat) (k : K) : Prop :=
   ∃ id a, id ∉ T ∧ find id s0.arts = some a ∧ k ∈ a.chunks
 
 def Distinct (ths : List (Th K)) : Prop :=
-  ∀ i j thi thj id, i ≠ j → ths[i]? = some thi → ths[j]? = some thj → target thi = some id → target thj ≠ some id
+  ∀ (i j : Nat) (thi thj : Th K) (id : Nat), i ≠ j → ths[i]? = some thi → ths[j]? = some thj → target thi = some id → target thj ≠ some id
 
 structure CInv (s0 : State K) (T C : List Nat) (s : State K) (ths : List (Th K)) : Prop where
   noW : ∀ th ∈ ths, NoW th
@@ -173,20 +173,20 @@ theorem occF_claim (k : K) (C : List Nat) (arts : List (Nat × Art K)) (id : Nat
     by_cases hq : q.1 = id
     · simp only [hq, if_true, Option.some.injEq] at hf
       have hnot : id ∉ keys arts := hq ▸ hn.1
-      have hrest : (arts.map (fun a => if (id :: C).contains a.1 then 0 else a.2.chunks.count k)).sum
-          = (arts.map (fun a => if C.contains a.1 then 0 else a.2.chunks.count k)).sum := by
+      have hrest : (arts.map (fun a => if a.1 ∈ id :: C then 0 else a.2.chunks.count k)).sum
+          = (arts.map (fun a => if a.1 ∈ C then 0 else a.2.chunks.count k)).sum := by
         congr 1
         apply List.map_congr_left
         intro p hp
         have : p.1 ≠ id := fun e => hnot (e ▸ List.mem_map.mpr ⟨p, hp, rfl⟩)
         simp [this]
-      have hcc : C.contains id = false := by simpa using hc
       rw [hrest, hq, hf]
-      simp [hcc]
+      simp only [List.mem_cons, true_or, if_true, hc, if_false]
+      omega
     · simp only [hq, if_false] at hf
       have := ih hn.2 hf
-      have hqq : (id :: C).contains q.1 = C.contains q.1 := by simp [hq]
-      rw [hqq]
+      have hqq : (q.1 ∈ id :: C) ↔ q.1 ∈ C := by simp [hq]
+      simp only [hqq]
       omega
 
 /-- erasing a claimed artifact changes nothing -/
@@ -200,7 +200,7 @@ theorem occF_erase (k : K) (C : List Nat) (arts : List (Nat × Art K)) (id : Nat
     by_cases hq : q.1 = id
     · rw [List.filter_cons_of_neg (by simp [hq])]
       simp only [List.map_cons, List.sum_cons]
-      have : C.contains q.1 = true := by rw [hq]; simpa using hc
+      have : q.1 ∈ C := by rw [hq]; exact hc
       rw [ih]; simp [this]
     · rw [List.filter_cons_of_pos (by simp [hq])]
       simp only [List.map_cons, List.sum_cons]
@@ -210,17 +210,14 @@ theorem occF_zero (k : K) (C : List Nat) (arts : List (Nat × Art K)) (hz : ∀ 
     occF k C arts = 0 := by
   apply sum_map_zero
   intro p hp
-  have := hz p hp
-  by_cases hc : C.contains p.1 = true
-  · simp [hc]
-  · simp only [hc]; exact List.count_eq_zero.mpr this
+  have := List.count_eq_zero.mpr (hz p hp)
+  by_cases hc : p.1 ∈ C <;> simp [hc, this]
 
 theorem occF_pos (k : K) (C : List Nat) (arts : List (Nat × Art K)) {p : Nat × Art K} (hp : p ∈ arts)
     (hc : p.1 ∉ C) (hk : k ∈ p.2.chunks) : 0 < occF k C arts := by
-  have := le_sum_map arts (fun a => if C.contains a.1 then 0 else a.2.chunks.count k) hp
-  have hcc : C.contains p.1 = false := by simpa using hc
-  simp only [hcc] at this
-  have := List.count_pos_iff.mpr hk
+  have h1 := le_sum_map arts (fun a => if a.1 ∈ C then 0 else a.2.chunks.count k) hp
+  simp only [hc, if_false] at h1
+  have h2 : 0 < p.2.chunks.count k := List.count_pos_iff.mpr hk
   unfold occF; omega
 
 theorem prot_mem {s0 s : State K} {T : List Nat} (hB : ∀ id, id ∉ T → find id s.arts = find id s0.arts) {k : K}
@@ -236,6 +233,725 @@ theorem prot_rhs_pos {s0 : State K} {T C : List Nat} {s : State K} {ths : List (
   obtain ⟨p, hp1, hp2, hp3⟩ := prot_mem hB hp
   have := occF_pos k C s.arts hp1 (fun hc => hp2 (hcT _ hc)) hp3
   unfold rhs; omega
+
+/-! ### frame lemmas -/
+
+theorem mem_set_index {α : Type} {l : List α} {i : Nat} {a x : α} (hx : x ∈ l.set i a) :
+    x = a ∨ ∃ j, j ≠ i ∧ l[j]? = some x := by
+  obtain ⟨j, hj⟩ := List.mem_iff_getElem?.mp hx
+  by_cases e : i = j
+  · subst e
+    rw [List.getElem?_set] at hj
+    simp only [if_true] at hj
+    split at hj
+    · left; exact (Option.some.inj hj).symm
+    · cases hj
+  · right
+    rw [List.getElem?_set_ne e] at hj
+    exact ⟨j, fun x => e x.symm, hj⟩
+
+theorem distinct_set {ths : List (Th K)} {i : Nat} {th th' : Th K} (hd : Distinct ths) (hi : ths[i]? = some th)
+    (ht : ∀ id, target th' = some id → target th = some id) : Distinct (ths.set i th') := by
+  have hlt : i < ths.length := by
+    rcases Nat.lt_or_ge i ths.length with hlt | hge
+    · exact hlt
+    · rw [List.getElem?_eq_none hge] at hi; cases hi
+  intro a b tha thb id hab ha hb hta
+  by_cases ea : i = a
+  · subst ea
+    rw [List.getElem?_set_self hlt] at ha
+    rw [List.getElem?_set_ne hab] at hb
+    cases ha
+    exact hd i b th thb id hab hi hb (ht id hta)
+  · rw [List.getElem?_set_ne ea] at ha
+    by_cases eb : i = b
+    · subst eb
+      rw [List.getElem?_set_self hlt] at hb
+      cases hb
+      intro htb
+      exact hd a i tha th id hab ha hi hta (ht id htb)
+    · rw [List.getElem?_set_ne eb] at hb
+      exact hd a b tha thb id hab ha hb hta
+
+/-- one thread moves, the artifacts stay, the ghost set may grow, the chunk table may change -/
+theorem CInv_frame {s0 : State K} {T C C' : List Nat} {s : State K} {ths : List (Th K)} (hinv : CInv s0 T C s ths)
+    {i : Nat} {th th' : Th K} (hi : ths[i]? = some th) (tbl' : List (K × CRec))
+    (hW : NoW th')
+    (hT : ∀ id, target th' = some id → target th = some id)
+    (hCsub : ∀ id ∈ C, id ∈ C') (hCT : ∀ id ∈ C', id ∈ T)
+    (hK : ∀ x ∈ ths.set i th', ∀ id, x = .dGetMeta id → id ∉ C')
+    (hCl : ∀ id, claim th' = some id → id ∈ C' ∧ ∃ a, find id s.arts = some a ∧ ∀ k, 0 < owes k th' → k ∈ a.chunks)
+    (hrhs : ∀ k, rhs k C' { s with chunks := tbl' } (ths.set i th') ≤ rhs k C s ths)
+    (hD : ∀ k, rhs k C' { s with chunks := tbl' } (ths.set i th') ≤ refsOf k tbl')
+    (hJd : ∀ k, Prot s0 T k → dataOf k tbl' = dataOf k s0.chunks)
+    (hE : ∀ id k todo r, th' = .dDecPut id k todo r → rhs k C s ths ≤ r.refs)
+    (hF : ∀ mc k todo, th' = .gDel mc k todo → rhs k C s ths = 0)
+    (hM : ∀ ids refd ordK, th' = .fGetMeta ids refd ordK → ∀ p ∈ s.arts, p.1 ∈ ids ∨ ∀ k ∈ p.2.chunks, k ∈ refd)
+    (hL : ∀ refd, lateRefd th' = some refd → ∀ p ∈ s.arts, ∀ k ∈ p.2.chunks, k ∈ refd)
+    (hDc : ∀ k refd todo, th' = .fDel k refd todo → refd.contains k = false)
+    (hJs : ∀ id k todo r, th' = .dDecPut id k todo r → Prot s0 T k → some r.data = dataOf k s0.chunks) :
+    CInv s0 T C' { s with chunks := tbl' } (ths.set i th') := by
+  have old : ∀ x ∈ ths.set i th', x = th' ∨ x ∈ ths := by
+    intro x hx
+    rcases List.mem_or_eq_of_mem_set hx with e | e
+    · right; exact e
+    · left; exact e
+  refine ⟨?_, hinv.nodup, hinv.artsB, hCT, ?_, distinct_set hinv.dist hi hT, hK, ?_, ?_, hD, ?_, ?_, ?_, ?_, ?_, hJd, ?_⟩
+  · intro x hx
+    rcases old x hx with e | e
+    · rw [e]; exact hW
+    · exact hinv.noW x e
+  · intro x hx id hid
+    rcases old x hx with e | e
+    · rw [e] at hid; exact hinv.tT th (List.mem_of_getElem? hi) id (hT id hid)
+    · exact hinv.tT x e id hid
+  · intro x hx id hid
+    rcases old x hx with e | e
+    · rw [e] at hid; exact (hCl id hid).1
+    · exact hCsub id (hinv.mInv x e id hid)
+  · intro x hx id hid
+    rcases old x hx with e | e
+    · rw [e] at hid ⊢; exact (hCl id hid).2
+    · exact hinv.nInv x e id hid
+  · intro x hx id k todo r hxe
+    rcases old x hx with e | e
+    · exact Nat.le_trans (hrhs k) (hE id k todo r (e ▸ hxe))
+    · exact Nat.le_trans (hrhs k) (hinv.staleE x e id k todo r hxe)
+  · intro x hx mc k todo hxe
+    have h0 : rhs k C s ths = 0 := by
+      rcases old x hx with e | e
+      · exact hF mc k todo (e ▸ hxe)
+      · exact hinv.gdelF x e mc k todo hxe
+    have := hrhs k; omega
+  · intro x hx ids refd ordK hxe
+    rcases old x hx with e | e
+    · exact hM ids refd ordK (e ▸ hxe)
+    · exact hinv.fMeta x e ids refd ordK hxe
+  · intro x hx refd hxe
+    rcases old x hx with e | e
+    · exact hL refd (e ▸ hxe)
+    · exact hinv.fLate x e refd hxe
+  · intro x hx k refd todo hxe
+    rcases old x hx with e | e
+    · exact hDc k refd todo (e ▸ hxe)
+    · exact hinv.fDelC x e k refd todo hxe
+  · intro x hx id k todo r hxe
+    rcases old x hx with e | e
+    · exact hJs id k todo r (e ▸ hxe)
+    · exact hinv.staleJ x e id k todo r hxe
+
+/-- the common case: the store is not touched, the thread owes no more than before and claims nothing new -/
+theorem CInv_quiet {s0 : State K} {T C : List Nat} {s : State K} {ths : List (Th K)} (hinv : CInv s0 T C s ths)
+    {i : Nat} {th th' : Th K} (hi : ths[i]? = some th)
+    (hW : NoW th')
+    (hT : ∀ id, target th' = some id → target th = some id)
+    (hG : ∀ id, th' ≠ .dGetMeta id)
+    (hCl : ∀ id, claim th' = some id → claim th = some id)
+    (hO : ∀ k, owes k th' ≤ owes k th)
+    (hE : ∀ id k todo r, th' = .dDecPut id k todo r → rhs k C s ths ≤ r.refs)
+    (hF : ∀ mc k todo, th' = .gDel mc k todo → rhs k C s ths = 0)
+    (hM : ∀ ids refd ordK, th' = .fGetMeta ids refd ordK → ∀ p ∈ s.arts, p.1 ∈ ids ∨ ∀ k ∈ p.2.chunks, k ∈ refd)
+    (hL : ∀ refd, lateRefd th' = some refd → ∀ p ∈ s.arts, ∀ k ∈ p.2.chunks, k ∈ refd)
+    (hDc : ∀ k refd todo, th' = .fDel k refd todo → refd.contains k = false)
+    (hJs : ∀ id k todo r, th' = .dDecPut id k todo r → Prot s0 T k → some r.data = dataOf k s0.chunks) :
+    CInv s0 T C s (ths.set i th') := by
+  have hm := List.mem_of_getElem? hi
+  have hr : ∀ k, rhs k C { s with chunks := s.chunks } (ths.set i th') ≤ rhs k C s ths :=
+    fun k => rhs_set_le k C s ths i th th' hi (hO k)
+  have := CInv_frame hinv hi s.chunks hW hT (fun _ x => x) hinv.cT
+    (by
+      intro x hx id hxe
+      rcases List.mem_or_eq_of_mem_set hx with e | e
+      · exact hinv.kInv x e id hxe
+      · exact absurd (e ▸ hxe) (hG id))
+    (by
+      intro id hid
+      have hc := hCl id hid
+      obtain ⟨a, ha1, ha2⟩ := hinv.nInv th hm id hc
+      exact ⟨hinv.mInv th hm id hc, a, ha1, fun k hk => ha2 k (by have := hO k; omega)⟩)
+    hr (fun k => Nat.le_trans (hr k) (hinv.refsD k)) hinv.dataJ hE hF hM hL hDc hJs
+  exact this
+
+/-! ### one step of one thread -/
+
+theorem claim_target {th : Th K} {id : Nat} (hc : claim th = some id) : target th = some id := by
+  cases th <;> simp_all [claim, target]
+
+theorem owes_pos_claim {th : Th K} {k : K} (hp : 0 < owes k th) : ∃ id, claim th = some id := by
+  cases th <;> simp_all [claim, owes]
+
+theorem refsOf_erase (k k' : K) (tbl : List (K × CRec)) :
+    refsOf k' (erase k tbl) = if k' = k then 0 else refsOf k' tbl := by
+  unfold refsOf; rw [find_erase]
+  by_cases e : k' = k <;> simp [e]
+
+theorem dataOf_erase_ne {k k' : K} (tbl : List (K × CRec)) (hne : k' ≠ k) :
+    dataOf k' (erase k tbl) = dataOf k' tbl := by
+  unfold dataOf; rw [find_erase]; simp [hne]
+
+/-- a key no existing artifact lists and no deleter in flight owes: `rhs` is 0 -/
+theorem rhs_zero_of_unlisted {s0 : State K} {T C : List Nat} {s : State K} {ths : List (Th K)}
+    (hinv : CInv s0 T C s ths) {k : K} (hz : ∀ p ∈ s.arts, k ∉ p.2.chunks) : rhs k C s ths = 0 := by
+  have h1 := occF_zero k C s.arts hz
+  have h2 : owed k ths = 0 := by
+    apply sum_map_zero
+    intro x hx
+    rcases Nat.eq_zero_or_pos (owes k x) with e | e
+    · exact e
+    · obtain ⟨id, hid⟩ := owes_pos_claim e
+      obtain ⟨a, ha1, ha2⟩ := hinv.nInv x hx id hid
+      exact absurd (ha2 k e) (hz (id, a) (find_some_mem ha1))
+  unfold rhs; omega
+
+theorem step_CInv {s0 : State K} {T C : List Nat} {s : State K} {ths : List (Th K)} (hinv : CInv s0 T C s ths)
+    {i : Nat} {th : Th K} (hi : ths[i]? = some th) :
+    ∃ C', CInv s0 T C' (stepTh h s th).1 (ths.set i (stepTh h s th).2) := by
+  have hm := List.mem_of_getElem? hi
+  cases th with
+  | done =>
+    refine ⟨C, ?_⟩
+    simp only [stepTh]
+    exact CInv_quiet hinv hi trivial (fun _ e => by cases e) (fun _ e => by cases e) (fun _ e => by cases e)
+      (fun _ => Nat.le_refl _) (fun _ _ _ _ e => by cases e) (fun _ _ _ e => by cases e)
+      (fun _ _ _ e => by cases e) (fun _ e => by cases e) (fun _ _ _ e => by cases e) (fun _ _ _ _ e => by cases e)
+  | wExists id t all todo acc => exact absurd (hinv.noW _ hm) (by simp [NoW])
+  | wPutNew id t all d todo acc => exact absurd (hinv.noW _ hm) (by simp [NoW])
+  | wIncGet id t all d todo acc => exact absurd (hinv.noW _ hm) (by simp [NoW])
+  | wIncPut id t all d todo acc r => exact absurd (hinv.noW _ hm) (by simp [NoW])
+  | dGetMeta id =>
+    simp only [stepTh]
+    cases hf : find id s.arts with
+    | none =>
+      refine ⟨C, ?_⟩
+      simp only
+      exact CInv_quiet hinv hi trivial (fun _ e => by cases e) (fun _ e => by cases e) (fun _ e => by cases e)
+        (fun _ => Nat.zero_le _) (fun _ _ _ _ e => by cases e) (fun _ _ _ e => by cases e)
+        (fun _ _ _ e => by cases e) (fun _ e => by cases e) (fun _ _ _ e => by cases e) (fun _ _ _ _ e => by cases e)
+    | some a =>
+      refine ⟨id :: C, ?_⟩
+      simp only
+      have hidC : id ∉ C := hinv.kInv _ hm id rfl
+      have hrhs : ∀ k, rhs k (id :: C) { s with chunks := s.chunks } (ths.set i (.dDecGet id a.chunks)) = rhs k C s ths := by
+        intro k
+        have h1 := occF_claim k C s.arts id a hinv.nodup hf hidC
+        have h2 := owed_set k ths i (.dGetMeta id) (.dDecGet id a.chunks) hi
+        simp only [owes] at h2
+        unfold rhs; omega
+      exact CInv_frame hinv hi s.chunks trivial (fun id' e => by simpa [target] using e)
+        (fun id' h' => List.mem_cons_of_mem _ h')
+        (by
+          intro id' h'
+          rcases List.mem_cons.mp h' with e | e
+          · rw [e]; exact hinv.tT _ hm id rfl
+          · exact hinv.cT id' e)
+        (by
+          intro x hx id' hxe
+          rcases mem_set_index hx with e | ⟨j, hj, hxj⟩
+          · rw [e] at hxe; cases hxe
+          · subst hxe
+            intro hmem
+            rcases List.mem_cons.mp hmem with e | e
+            · exact hinv.dist j i _ _ id' hj hxj hi rfl (by rw [e]; rfl)
+            · exact hinv.kInv _ (List.mem_of_getElem? hxj) id' rfl e)
+        (by
+          intro id' hc
+          simp only [claim, Option.some.injEq] at hc
+          subst hc
+          exact ⟨List.mem_cons_self, a, hf, fun k hk => List.count_pos_iff.mp (by simpa [owes] using hk)⟩)
+        (fun k => Nat.le_of_eq (hrhs k)) (fun k => by rw [hrhs k]; exact hinv.refsD k) hinv.dataJ
+        (fun _ _ _ _ e => by cases e) (fun _ _ _ e => by cases e)
+        (fun _ _ _ e => by cases e) (fun _ e => by cases e) (fun _ _ _ e => by cases e) (fun _ _ _ _ e => by cases e)
+  | dDecGet id todo =>
+    cases todo with
+    | nil =>
+      refine ⟨C, ?_⟩
+      simp only [stepTh]
+      have hidT : id ∈ T := hinv.tT _ hm id rfl
+      have hidC : id ∈ C := hinv.mInv _ hm id rfl
+      have hsub : ∀ p ∈ erase id s.arts, p ∈ s.arts := fun p hp => (List.mem_filter.mp hp).1
+      have hrhs : ∀ k, rhs k C { s with arts := erase id s.arts } (ths.set i .done) = rhs k C s ths := by
+        intro k
+        have h1 := occF_erase k C s.arts id hidC
+        have h2 := owed_set k ths i (.dDecGet id []) .done hi
+        simp only [owes, List.count_nil] at h2
+        unfold rhs; simp only; omega
+      have old : ∀ x ∈ ths.set i Th.done, x = .done ∨ x ∈ ths := by
+        intro x hx
+        rcases List.mem_or_eq_of_mem_set hx with e | e
+        · right; exact e
+        · left; exact e
+      refine ⟨?_, keys_filter_nodup _ hinv.nodup, ?_, hinv.cT, ?_,
+        distinct_set hinv.dist hi (fun _ e => by cases e), ?_, ?_, ?_, ?_, ?_, ?_, ?_, ?_, ?_, hinv.dataJ, ?_⟩
+      · intro x hx
+        rcases old x hx with e | e
+        · rw [e]; trivial
+        · exact hinv.noW x e
+      · intro id' hid'
+        have : ¬ id' = id := fun e => hid' (e ▸ hidT)
+        simp only [find_erase, this, if_false]
+        exact hinv.artsB id' hid'
+      · intro x hx id' hid'
+        rcases old x hx with e | e
+        · rw [e] at hid'; cases hid'
+        · exact hinv.tT x e id' hid'
+      · intro x hx id' hxe
+        rcases old x hx with e | e
+        · rw [e] at hxe; cases hxe
+        · exact hinv.kInv x e id' hxe
+      · intro x hx id' hid'
+        rcases old x hx with e | e
+        · rw [e] at hid'; cases hid'
+        · exact hinv.mInv x e id' hid'
+      · intro x hx id' hid'
+        rcases mem_set_index hx with e | ⟨j, hj, hxj⟩
+        · rw [e] at hid'; cases hid'
+        · obtain ⟨a, ha1, ha2⟩ := hinv.nInv x (List.mem_of_getElem? hxj) id' hid'
+          have hne : ¬ id' = id := by
+            intro e
+            exact hinv.dist j i x _ id' hj hxj hi (claim_target hid') (by rw [e]; rfl)
+          refine ⟨a, ?_, ha2⟩
+          simp only [find_erase, hne, if_false]
+          exact ha1
+      · intro k; rw [hrhs k]; exact hinv.refsD k
+      · intro x hx id' k todo r hxe
+        rcases old x hx with e | e
+        · rw [e] at hxe; cases hxe
+        · rw [hrhs k]; exact hinv.staleE x e id' k todo r hxe
+      · intro x hx mc k todo hxe
+        rcases old x hx with e | e
+        · rw [e] at hxe; cases hxe
+        · rw [hrhs k]; exact hinv.gdelF x e mc k todo hxe
+      · intro x hx ids refd ordK hxe p hp
+        rcases old x hx with e | e
+        · rw [e] at hxe; cases hxe
+        · exact hinv.fMeta x e ids refd ordK hxe p (hsub p hp)
+      · intro x hx refd hxe p hp
+        rcases old x hx with e | e
+        · rw [e] at hxe; cases hxe
+        · exact hinv.fLate x e refd hxe p (hsub p hp)
+      · intro x hx k refd todo hxe
+        rcases old x hx with e | e
+        · rw [e] at hxe; cases hxe
+        · exact hinv.fDelC x e k refd todo hxe
+      · intro x hx id' k todo r hxe
+        rcases old x hx with e | e
+        · rw [e] at hxe; cases hxe
+        · exact hinv.staleJ x e id' k todo r hxe
+    | cons k todo =>
+      refine ⟨C, ?_⟩
+      simp only [stepTh]
+      cases hf : find k s.chunks with
+      | none =>
+        simp only
+        exact CInv_quiet hinv hi trivial (fun id' e => by simpa [target] using e) (fun _ e => by cases e)
+          (fun id' e => by simpa [claim] using e)
+          (fun k' => by simp only [owes, List.count_cons]; omega)
+          (fun _ _ _ _ e => by cases e) (fun _ _ _ e => by cases e)
+          (fun _ _ _ e => by cases e) (fun _ e => by cases e) (fun _ _ _ e => by cases e) (fun _ _ _ _ e => by cases e)
+      | some r =>
+        simp only
+        have hrefs : refsOf k s.chunks = r.refs := by unfold refsOf; rw [hf]
+        have hdata : dataOf k s.chunks = some r.data := by unfold dataOf; rw [hf]; rfl
+        exact CInv_quiet hinv hi trivial (fun id' e => by simpa [target] using e) (fun _ e => by cases e)
+          (fun id' e => by simpa [claim] using e)
+          (fun k' => by
+            simp only [owes, List.count_cons, beq_iff_eq]
+            by_cases e : k = k' <;> simp [e])
+          (fun id' k' todo' r' e => by
+            cases e
+            rw [← hrefs]; exact hinv.refsD k)
+          (fun _ _ _ e => by cases e)
+          (fun _ _ _ e => by cases e) (fun _ e => by cases e) (fun _ _ _ e => by cases e)
+          (fun id' k' todo' r' e hp => by
+            cases e
+            rw [← hinv.dataJ k hp, hdata])
+  | dDecPut id k todo r =>
+    refine ⟨C, ?_⟩
+    simp only [stepTh]
+    have hown : ∀ k', owes k' (Th.dDecGet id todo : Th K) ≤ owes k' (Th.dDecPut id k todo r) := by
+      intro k'; simp only [owes]; omega
+    have hrhs : ∀ k', rhs k' C { s with chunks := setRec k { r with refs := r.refs - 1 } s.chunks }
+        (ths.set i (.dDecGet id todo)) ≤ rhs k' C s ths :=
+      fun k' => rhs_set_le k' C s ths i _ _ hi (hown k')
+    exact CInv_frame hinv hi _ trivial (fun id' e => by simpa [target] using e) (fun _ x => x) hinv.cT
+      (by
+        intro x hx id' hxe
+        rcases List.mem_or_eq_of_mem_set hx with e | e
+        · exact hinv.kInv x e id' hxe
+        · rw [e] at hxe; cases hxe)
+      (by
+        intro id' hc
+        simp only [claim, Option.some.injEq] at hc
+        subst hc
+        obtain ⟨a, ha1, ha2⟩ := hinv.nInv _ hm id rfl
+        exact ⟨hinv.mInv _ hm id rfl, a, ha1, fun k' hk' => ha2 k' (by have := hown k'; omega)⟩)
+      hrhs
+      (by
+        intro k'
+        by_cases e : k' = k
+        · subst e
+          have h1 : refsOf k' (setRec k' { r with refs := r.refs - 1 } s.chunks) = r.refs - 1 := by
+            unfold refsOf; rw [find_setRec]; simp
+          have h2 := owed_set k' ths i (.dDecPut id k' todo r) (.dDecGet id todo) hi
+          simp only [owes, if_true] at h2
+          have h3 := hinv.staleE _ hm id k' todo r rfl
+          rw [h1]
+          unfold rhs at h3 ⊢
+          simp only at h3 ⊢
+          omega
+        · have h1 : refsOf k' (setRec k { r with refs := r.refs - 1 } s.chunks) = refsOf k' s.chunks := by
+            unfold refsOf; rw [find_setRec]; simp [e]
+          rw [h1]
+          exact Nat.le_trans (hrhs k') (hinv.refsD k'))
+      (by
+        intro k' hp
+        by_cases e : k' = k
+        · subst e
+          have : dataOf k' (setRec k' { r with refs := r.refs - 1 } s.chunks) = some r.data := by
+            unfold dataOf; rw [find_setRec]; simp
+          rw [this]
+          exact hinv.staleJ _ hm id k' todo r rfl hp
+        · have : dataOf k' (setRec k { r with refs := r.refs - 1 } s.chunks) = dataOf k' s.chunks := by
+            unfold dataOf; rw [find_setRec]; simp [e]
+          rw [this]
+          exact hinv.dataJ k' hp)
+      (fun _ _ _ _ e => by cases e) (fun _ _ _ e => by cases e)
+      (fun _ _ _ e => by cases e) (fun _ e => by cases e) (fun _ _ _ e => by cases e) (fun _ _ _ _ e => by cases e)
+  | gScan mc ord =>
+    refine ⟨C, ?_⟩
+    simp only [stepTh]
+    exact CInv_quiet hinv hi trivial (fun _ e => by cases e) (fun _ e => by cases e) (fun _ e => by cases e)
+      (fun _ => Nat.le_refl _) (fun _ _ _ _ e => by cases e) (fun _ _ _ e => by cases e)
+      (fun _ _ _ e => by cases e) (fun _ e => by cases e) (fun _ _ _ e => by cases e) (fun _ _ _ _ e => by cases e)
+  | gGet mc todo =>
+    refine ⟨C, ?_⟩
+    cases todo with
+    | nil =>
+      simp only [stepTh]
+      exact CInv_quiet hinv hi trivial (fun _ e => by cases e) (fun _ e => by cases e) (fun _ e => by cases e)
+        (fun _ => Nat.le_refl _) (fun _ _ _ _ e => by cases e) (fun _ _ _ e => by cases e)
+        (fun _ _ _ e => by cases e) (fun _ e => by cases e) (fun _ _ _ e => by cases e) (fun _ _ _ _ e => by cases e)
+    | cons k todo =>
+      simp only [stepTh]
+      cases hf : find k s.chunks with
+      | none =>
+        simp only
+        exact CInv_quiet hinv hi trivial (fun _ e => by cases e) (fun _ e => by cases e) (fun _ e => by cases e)
+          (fun _ => Nat.le_refl _) (fun _ _ _ _ e => by cases e) (fun _ _ _ e => by cases e)
+          (fun _ _ _ e => by cases e) (fun _ e => by cases e) (fun _ _ _ e => by cases e) (fun _ _ _ _ e => by cases e)
+      | some r =>
+        simp only
+        by_cases hc : r.refs = 0 ∧ r.created < mc
+        · simp only [hc, and_self, if_true]
+          have hrefs : refsOf k s.chunks = 0 := by unfold refsOf; rw [hf]; exact hc.1
+          exact CInv_quiet hinv hi trivial (fun _ e => by cases e) (fun _ e => by cases e) (fun _ e => by cases e)
+            (fun _ => Nat.le_refl _) (fun _ _ _ _ e => by cases e)
+            (fun mc' k' todo' e => by
+              cases e
+              have := hinv.refsD k; omega)
+            (fun _ _ _ e => by cases e) (fun _ e => by cases e) (fun _ _ _ e => by cases e) (fun _ _ _ _ e => by cases e)
+        · simp only [hc, if_false]
+          exact CInv_quiet hinv hi trivial (fun _ e => by cases e) (fun _ e => by cases e) (fun _ e => by cases e)
+            (fun _ => Nat.le_refl _) (fun _ _ _ _ e => by cases e) (fun _ _ _ e => by cases e)
+            (fun _ _ _ e => by cases e) (fun _ e => by cases e) (fun _ _ _ e => by cases e) (fun _ _ _ _ e => by cases e)
+  | gDel mc k todo =>
+    refine ⟨C, ?_⟩
+    simp only [stepTh]
+    have h0 : rhs k C s ths = 0 := hinv.gdelF _ hm mc k todo rfl
+    have hrhs : ∀ k', rhs k' C { s with chunks := erase k s.chunks } (ths.set i (.gGet mc todo)) ≤ rhs k' C s ths :=
+      fun k' => rhs_set_le k' C s ths i _ _ hi (Nat.le_refl _)
+    exact CInv_frame hinv hi _ trivial (fun _ e => by cases e) (fun _ x => x) hinv.cT
+      (by
+        intro x hx id' hxe
+        rcases List.mem_or_eq_of_mem_set hx with e | e
+        · exact hinv.kInv x e id' hxe
+        · rw [e] at hxe; cases hxe)
+      (fun _ e => by cases e)
+      hrhs
+      (by
+        intro k'
+        rw [refsOf_erase]
+        by_cases e : k' = k
+        · subst e; have := hrhs k'; simp only [if_true]; omega
+        · simp only [e, if_false]; exact Nat.le_trans (hrhs k') (hinv.refsD k'))
+      (by
+        intro k' hp
+        by_cases e : k' = k
+        · subst e
+          have := prot_rhs_pos (C := C) (s := s) (ths := ths) hinv.artsB hinv.cT hp
+          omega
+        · rw [dataOf_erase_ne _ e]; exact hinv.dataJ k' hp)
+      (fun _ _ _ _ e => by cases e) (fun _ _ _ e => by cases e)
+      (fun _ _ _ e => by cases e) (fun _ e => by cases e) (fun _ _ _ e => by cases e) (fun _ _ _ _ e => by cases e)
+  | fScanMeta ordI ordK =>
+    refine ⟨C, ?_⟩
+    simp only [stepTh]
+    exact CInv_quiet hinv hi trivial (fun _ e => by cases e) (fun _ e => by cases e) (fun _ e => by cases e)
+      (fun _ => Nat.le_refl _) (fun _ _ _ _ e => by cases e) (fun _ _ _ e => by cases e)
+      (fun ids refd ok e p hp => by
+        cases e
+        left
+        exact mem_orderBy (List.mem_map.mpr ⟨p, hp, rfl⟩))
+      (fun _ e => by cases e) (fun _ _ _ e => by cases e) (fun _ _ _ _ e => by cases e)
+  | fGetMeta ids refd ordK =>
+    refine ⟨C, ?_⟩
+    have hold := hinv.fMeta _ hm ids refd ordK rfl
+    cases ids with
+    | nil =>
+      simp only [stepTh]
+      exact CInv_quiet hinv hi trivial (fun _ e => by cases e) (fun _ e => by cases e) (fun _ e => by cases e)
+        (fun _ => Nat.le_refl _) (fun _ _ _ _ e => by cases e) (fun _ _ _ e => by cases e)
+        (fun _ _ _ e => by cases e)
+        (fun refd' e p hp k hk => by
+          simp only [lateRefd, Option.some.injEq] at e
+          subst e
+          rcases hold p hp with h1 | h1
+          · simp at h1
+          · exact h1 k hk)
+        (fun _ _ _ e => by cases e) (fun _ _ _ _ e => by cases e)
+    | cons id ids =>
+      simp only [stepTh]
+      cases hf : find id s.arts with
+      | none =>
+        simp only
+        exact CInv_quiet hinv hi trivial (fun _ e => by cases e) (fun _ e => by cases e) (fun _ e => by cases e)
+          (fun _ => Nat.le_refl _) (fun _ _ _ _ e => by cases e) (fun _ _ _ e => by cases e)
+          (fun ids' refd' ok' e p hp => by
+            cases e
+            rcases hold p hp with h1 | h1
+            · rcases List.mem_cons.mp h1 with e1 | e1
+              · have := (find_none_iff id s.arts).mp hf
+                exact absurd (List.mem_map.mpr ⟨p, hp, e1⟩) this
+              · left; exact e1
+            · right; exact h1)
+          (fun _ e => by cases e) (fun _ _ _ e => by cases e) (fun _ _ _ _ e => by cases e)
+      | some a =>
+        simp only
+        exact CInv_quiet hinv hi trivial (fun _ e => by cases e) (fun _ e => by cases e) (fun _ e => by cases e)
+          (fun _ => Nat.le_refl _) (fun _ _ _ _ e => by cases e) (fun _ _ _ e => by cases e)
+          (fun ids' refd' ok' e p hp => by
+            cases e
+            rcases hold p hp with h1 | h1
+            · rcases List.mem_cons.mp h1 with e1 | e1
+              · right
+                intro k hk
+                have hpa : find p.1 s.arts = some p.2 := mem_find hinv.nodup (show (p.1, p.2) ∈ s.arts from hp)
+                rw [e1, hf] at hpa
+                simp only [Option.some.injEq] at hpa
+                rw [hpa]
+                exact List.mem_append_right _ hk
+              · left; exact e1
+            · right; intro k hk; exact List.mem_append_left _ (h1 k hk))
+          (fun _ e => by cases e) (fun _ _ _ e => by cases e) (fun _ _ _ _ e => by cases e)
+  | fScanChunks refd ordK =>
+    refine ⟨C, ?_⟩
+    simp only [stepTh]
+    have hold := hinv.fLate _ hm refd rfl
+    exact CInv_quiet hinv hi trivial (fun _ e => by cases e) (fun _ e => by cases e) (fun _ e => by cases e)
+      (fun _ => Nat.le_refl _) (fun _ _ _ _ e => by cases e) (fun _ _ _ e => by cases e)
+      (fun _ _ _ e => by cases e)
+      (fun refd' e => by
+        simp only [lateRefd, Option.some.injEq] at e
+        subst e; exact hold)
+      (fun _ _ _ e => by cases e) (fun _ _ _ _ e => by cases e)
+  | fGet refd todo =>
+    refine ⟨C, ?_⟩
+    have hold := hinv.fLate _ hm refd rfl
+    have quiet : ∀ todo', CInv s0 T C s (ths.set i (.fGet refd todo')) := by
+      intro todo'
+      exact CInv_quiet hinv hi trivial (fun _ e => by cases e) (fun _ e => by cases e) (fun _ e => by cases e)
+        (fun _ => Nat.le_refl _) (fun _ _ _ _ e => by cases e) (fun _ _ _ e => by cases e)
+        (fun _ _ _ e => by cases e)
+        (fun refd' e => by
+          simp only [lateRefd, Option.some.injEq] at e
+          subst e; exact hold)
+        (fun _ _ _ e => by cases e) (fun _ _ _ _ e => by cases e)
+    cases todo with
+    | nil =>
+      simp only [stepTh]
+      exact CInv_quiet hinv hi trivial (fun _ e => by cases e) (fun _ e => by cases e) (fun _ e => by cases e)
+        (fun _ => Nat.le_refl _) (fun _ _ _ _ e => by cases e) (fun _ _ _ e => by cases e)
+        (fun _ _ _ e => by cases e) (fun _ e => by cases e) (fun _ _ _ e => by cases e) (fun _ _ _ _ e => by cases e)
+    | cons k todo =>
+      simp only [stepTh]
+      by_cases hc : refd.contains k = true
+      · simp only [hc, if_true]; exact quiet todo
+      · have hc' : refd.contains k = false := by simpa using hc
+        simp only [hc', Bool.false_eq_true, if_false]
+        cases hf : find k s.chunks with
+        | none => simp only; exact quiet todo
+        | some r =>
+          simp only
+          exact CInv_quiet hinv hi trivial (fun _ e => by cases e) (fun _ e => by cases e) (fun _ e => by cases e)
+            (fun _ => Nat.le_refl _) (fun _ _ _ _ e => by cases e) (fun _ _ _ e => by cases e)
+            (fun _ _ _ e => by cases e)
+            (fun refd' e => by
+              simp only [lateRefd, Option.some.injEq] at e
+              subst e; exact hold)
+            (fun k' refd' todo' e => by
+              cases e
+              exact hc')
+            (fun _ _ _ _ e => by cases e)
+  | fDel k refd todo =>
+    refine ⟨C, ?_⟩
+    simp only [stepTh]
+    have hold := hinv.fLate _ hm refd rfl
+    have hnc : refd.contains k = false := hinv.fDelC _ hm k refd todo rfl
+    have hnot : k ∉ refd := by simpa using hnc
+    have h0 : rhs k C s ths = 0 := rhs_zero_of_unlisted hinv (fun p hp hk => hnot (hold p hp k hk))
+    have hrhs : ∀ k', rhs k' C { s with chunks := erase k s.chunks } (ths.set i (.fGet refd todo)) ≤ rhs k' C s ths :=
+      fun k' => rhs_set_le k' C s ths i _ _ hi (Nat.le_refl _)
+    exact CInv_frame hinv hi _ trivial (fun _ e => by cases e) (fun _ x => x) hinv.cT
+      (by
+        intro x hx id' hxe
+        rcases List.mem_or_eq_of_mem_set hx with e | e
+        · exact hinv.kInv x e id' hxe
+        · rw [e] at hxe; cases hxe)
+      (fun _ e => by cases e)
+      hrhs
+      (by
+        intro k'
+        rw [refsOf_erase]
+        by_cases e : k' = k
+        · subst e; have := hrhs k'; simp only [if_true]; omega
+        · simp only [e, if_false]; exact Nat.le_trans (hrhs k') (hinv.refsD k'))
+      (by
+        intro k' hp
+        by_cases e : k' = k
+        · subst e
+          have := prot_rhs_pos (C := C) (s := s) (ths := ths) hinv.artsB hinv.cT hp
+          omega
+        · rw [dataOf_erase_ne _ e]; exact hinv.dataJ k' hp)
+      (fun _ _ _ _ e => by cases e) (fun _ _ _ e => by cases e)
+      (fun _ _ _ e => by cases e)
+      (fun refd' e => by
+        simp only [lateRefd, Option.some.injEq] at e
+        subst e; exact hold)
+      (fun _ _ _ e => by cases e) (fun _ _ _ _ e => by cases e)
+
+/-! ### every schedule -/
+
+theorem runSched_CInv (sched : List Nat) {s0 : State K} {T C : List Nat} {s : State K} {ths : List (Th K)}
+    (hinv : CInv s0 T C s ths) :
+    ∃ C', CInv s0 T C' (runSched h s ths sched).1 (runSched h s ths sched).2 := by
+  induction sched generalizing C s ths with
+  | nil => exact ⟨C, hinv⟩
+  | cons i sc ih =>
+    rw [runSched]
+    unfold stepAt
+    cases hg : ths[i]? with
+    | none => exact ih hinv
+    | some th =>
+      obtain ⟨C', h'⟩ := step_CInv h hinv hg
+      exact ih h'
+
+/-- a deleter, a `gc_cycle` or a `full_gc` that has not taken a step yet -/
+def Th.isFreshNonWriter : Th K → Bool
+  | .dGetMeta _ => true
+  | .gScan _ _ => true
+  | .fScanMeta _ _ => true
+  | _ => false
+
+theorem distinct_of_nodup (ths : List (Th K)) (hn : (ths.filterMap target).Nodup) : Distinct ths := by
+  induction ths with
+  | nil => intro i j thi thj id _ hi; simp at hi
+  | cons x l ih =>
+    have hsub : (l.filterMap target).Nodup := by
+      rw [List.filterMap_cons] at hn
+      cases hx : target x with
+      | none => rw [hx] at hn; exact hn
+      | some y => rw [hx] at hn; exact (List.nodup_cons.mp hn).2
+    have hhead : ∀ id, target x = some id → ∀ th ∈ l, target th ≠ some id := by
+      intro id hx th hth hte
+      rw [List.filterMap_cons, hx] at hn
+      exact (List.nodup_cons.mp hn).1 (List.mem_filterMap.mpr ⟨th, hth, hte⟩)
+    intro i j thi thj id hij hi hj hti htj
+    cases i with
+    | zero =>
+      cases j with
+      | zero => exact hij rfl
+      | succ j =>
+        simp only [List.getElem?_cons_zero, Option.some.injEq] at hi
+        simp only [List.getElem?_cons_succ] at hj
+        subst hi
+        exact hhead id hti thj (List.mem_of_getElem? hj) htj
+    | succ i =>
+      cases j with
+      | zero =>
+        simp only [List.getElem?_cons_zero, Option.some.injEq] at hj
+        simp only [List.getElem?_cons_succ] at hi
+        subst hj
+        exact hhead id htj thi (List.mem_of_getElem? hi) hti
+      | succ j =>
+        simp only [List.getElem?_cons_succ] at hi hj
+        exact ih hsub i j thi thj id (fun e => hij (by rw [e])) hi hj hti htj
+
+theorem occF_nil (k : K) (arts : List (Nat × Art K)) : occF k [] arts = occ k arts := by
+  unfold occF occ
+  simp
+
+theorem CInv_init {s : State K} (hn : (keys s.arts).Nodup) (hr : ∀ k, occ k s.arts ≤ refsOf k s.chunks)
+    {ths : List (Th K)} (hst : ∀ th ∈ ths, th.isFreshNonWriter = true) (hd : (ths.filterMap target).Nodup) :
+    CInv s (ths.filterMap target) [] s ths := by
+  have hown : ∀ th ∈ ths, ∀ k, owes k th = 0 := by
+    intro th hth k
+    have := hst th hth
+    cases th <;> simp_all [Th.isFreshNonWriter, owes]
+  have hrhs : ∀ k, rhs k [] s ths = occ k s.arts := by
+    intro k
+    have h1 : owed k ths = 0 := sum_map_zero ths (owes k) (fun x hx => hown x hx k)
+    unfold rhs; rw [occF_nil, h1]; rfl
+  refine ⟨?_, hn, fun _ _ => rfl, fun id hid => by simp at hid, ?_, distinct_of_nodup ths hd,
+    fun _ _ _ _ => by simp, ?_, ?_, fun k => by rw [hrhs k]; exact hr k, ?_, ?_, ?_, ?_, ?_, fun _ _ => rfl, ?_⟩
+  · intro th hth
+    have := hst th hth
+    cases th <;> simp_all [Th.isFreshNonWriter, NoW]
+  · intro th hth id hid
+    exact List.mem_filterMap.mpr ⟨th, hth, hid⟩
+  · intro th hth id hid
+    have := hst th hth
+    cases th <;> simp_all [Th.isFreshNonWriter, claim]
+  · intro th hth id hid
+    have := hst th hth
+    cases th <;> simp_all [Th.isFreshNonWriter, claim]
+  · intro th hth id k todo r e
+    have := hst th hth
+    rw [e] at this; simp [Th.isFreshNonWriter] at this
+  · intro th hth mc k todo e
+    have := hst th hth
+    rw [e] at this; simp [Th.isFreshNonWriter] at this
+  · intro th hth ids refd ordK e
+    have := hst th hth
+    rw [e] at this; simp [Th.isFreshNonWriter] at this
+  · intro th hth refd e
+    have := hst th hth
+    cases th <;> simp_all [Th.isFreshNonWriter, lateRefd]
+  · intro th hth k refd todo e
+    have := hst th hth
+    rw [e] at this; simp [Th.isFreshNonWriter] at this
+  · intro th hth id k todo r e
+    have := hst th hth
+    rw [e] at this; simp [Th.isFreshNonWriter] at this
+
+/-- Deleters of pairwise different artifacts, `gc_cycle`s and `full_gc`s, freshly started on a store whose
+    refcounts dominate the occurrences, under EVERY schedule of their `TensorStore` calls and every scan order:
+    an artifact no deleter is after reads back exactly as before. -/
+theorem deleters_collectors_safe {s : State K} (hn : (keys s.arts).Nodup) (hr : ∀ k, occ k s.arts ≤ refsOf k s.chunks)
+    (ths : List (Th K)) (sched : List Nat) (hst : ∀ th ∈ ths, th.isFreshNonWriter = true)
+    (hd : (ths.filterMap target).Nodup) (id : Nat) (hid : ∀ th ∈ ths, target th ≠ some id) :
+    get (runSched h s ths sched).1 id = get s id := by
+  obtain ⟨C', hinv⟩ := runSched_CInv h sched (CInv_init hn hr hst hd)
+  have hidT : id ∉ ths.filterMap target := by
+    intro hm
+    obtain ⟨th, hth, hte⟩ := List.mem_filterMap.mp hm
+    exact hid th hth hte
+  unfold get
+  rw [hinv.artsB id hidT]
+  cases hf : find id s.arts with
+  | none => rfl
+  | some a =>
+    simp only
+    exact readChunks_congr (fun k hk => hinv.dataJ k ⟨id, a, hidT, hf, hk⟩)
 
 end
 end Neumann.Blob
